@@ -12,7 +12,7 @@ STRICT_ERR = False
 N_QUICK = 400
 N_THOROUGH = 5000
 
-def gen_family(rng, stats, nmax=4, allow_empty=True, dtype_choices=('f', 'f', 'i'), min_arrays=1, mix_kinds=True):
+def gen_family(rng, stats, nmax=4, allow_empty=True, dtype_choices=('f', 'f', 'i'), min_arrays=1, mix_kinds=True, same_ends=False):
     """a list of arrays over a common pool of dimensions with related label sets"""
     pool = rng.sample(DIMPOOL, rng.randint(1, 3))
     uni = {}
@@ -73,6 +73,22 @@ def gen_family(rng, stats, nmax=4, allow_empty=True, dtype_choices=('f', 'f', 'i
                 a['labels'] = [l]; a['axdtype'] = [k]
                 arrays.append(a)
             stats['family']['same direction with one-label axes'] += 1
+    if same_ends and narr >= 2 and rng.random() < 0.12:
+        # the same labels in two different orders that share the FIRST and the LAST label (and the size): only the interior differs,
+        # so any test on size / bounds / endpoints takes the two axes for equal
+        d = pool[0]; k, u = uni[d]
+        l1 = rng.sample(u, rng.randint(4, 5)); l2 = list(l1); l2[1], l2[2] = l2[2], l2[1]
+        arrays = []
+        for l in (l1, l2):
+            ds = [d] if len(pool) == 1 or rng.random() < 0.5 else rng.sample([d, pool[1]], 2)
+            a = rand_array(rng, dims=ds, lens=[len(l) if x == d else 2 for x in ds], dtype=rng.choice(dtype_choices))
+            a['labels'][ds.index(d)] = list(l); a['axdtype'][ds.index(d)] = k
+            if len(ds) == 2:
+                e = ds[1 - ds.index(d)]; ke, ue = uni[e]
+                a['labels'][ds.index(e)] = sorted(ue[:2]) if ke != 'O' else ue[:2]; a['axdtype'][ds.index(e)] = ke
+            arrays.append(a)
+        narr = 2
+        stats['family']['same labels, same ends, interior permuted'] += 1
     stats['n_arrays'][narr] += 1
     return arrays, pool
 
